@@ -310,9 +310,13 @@ def build(repo=None):
         return [(label, *v) for v in viol]
 
     REPO_FUNCS = {}
-    for q in ("_MetaAbstractArray._check_shape", "_check_dims", "_dtype_is_numpy_struct_array"):
-        f = am.func(q)
-        REPO_FUNCS[q.split(".")[-1]] = (f, "jaxtyping/_array_types.py")
+    # every function of the module (top level and methods of the annotation metaclass) is analysed recursively when the object flows into it
+    for n in am.tree.body:
+        if isinstance(n, ast.FunctionDef):
+            REPO_FUNCS[n.name] = (n, "jaxtyping/_array_types.py")
+    for n in am.cls("_MetaAbstractArray").body:
+        if isinstance(n, ast.FunctionDef):
+            REPO_FUNCS[n.name] = (n, "jaxtyping/_array_types.py")
     entry = am.func("_MetaAbstractArray.__instancecheck_str__")
     viol = analyse(entry, {"obj"}, "__instancecheck_str__", "jaxtyping/_array_types.py")
     ob("C17:checked-array-flows-only-into-type/metadata-reads(no-truth-test,comparison,iteration,index,conversion,unknown-callee)", not viol, ["C17"], violations=viol[:6])
